@@ -805,9 +805,12 @@ class IkeSa(object):
             # Find matching IPsec configuration and narrow TS (reverse order as we are responders)
             ipsec_conf, chosen_tsr, chosen_tsi = self._get_ipsec_configuration(request_payload_tsi,
                                                                                request_payload_tsr)
-            # a rekey keeps the selectors of the replaced CHILD_SA (a smaller matching policy must not narrow them)
+            # a rekey keeps the selectors of the replaced CHILD_SA (a smaller matching policy must not narrow them) and is
+            # negotiated under a policy that contains them
             if rekey_notify:
                 chosen_tsr, chosen_tsi = rekeyed_child_sa.tsi, rekeyed_child_sa.tsr
+                ipsec_conf = next((x for x in self.configuration.protect
+                                   if chosen_tsi.is_subset(x.peer_ts) and chosen_tsr.is_subset(x.my_ts)), ipsec_conf)
 
             # check which mode peer wants and compare to ours
             requested_mode = xfrm.Mode.TUNNEL
